@@ -197,8 +197,12 @@ def render_dimacs(rng, val, fancy=True):
             emit(s)
             item_lines.append(pos[0])
     if fancy and not unterminated:
-        for _ in range(rng.choice([0, 0, 1])):
-            emit(rng.choice([comment_line(rng, eol), eol]))
+        # after the last clause: comment lines (also indented), blank and whitespace-only lines, trailing blanks before
+        # the end of the input
+        for _ in range(rng.choice([0, 0, 1, 2])):
+            emit(rng.choice([comment_line(rng, eol), eol, blanks(rng) + eol, blanks(rng) + comment_line(rng, eol)]))
+        if rng.random() < 0.15:
+            emit(blanks(rng))
     return "".join(out).encode(), item_lines
 
 
